@@ -181,7 +181,11 @@ def _check_values(ctx, v, P, idx, got, memo, opname, opi):
             raise Violation("c05.node", f"op {opi} {opname}: at a table node the value is {got[nodes][k]!r}, the (floored) table entry is {nv[k]!r}", sig="node")
     # history independence: bit-identical to the first answer for the same point
     gb = got.view(np.int64)
-    for k, i in enumerate(idx.tolist()):
+    pairs = enumerate(idx.tolist())
+    if len(idx) > 40000:  # huge batches: head and tail are enough for the per-point history model
+        il = idx.tolist()
+        pairs = list(enumerate(il[:10000])) + [(len(il) - 10000 + k, i) for k, i in enumerate(il[-10000:])]
+    for k, i in pairs:
         m = memo.get(i)
         if m is None:
             memo[i] = (int(gb[k]), opi)
@@ -217,6 +221,14 @@ def scn_history(ctx):
         if kind in (0, 6, 7):
             idx = histsim.draw_indices(ch, m, 96)
             name = "tau_exit_prob"
+        elif kind == 4 and ch.draw(24, "huge") == 23:
+            # beyond the next "natural" block sizes (2**16, 2**18, 2**20), not a multiple of them
+            a = ch.draw(m, "big_a")
+            sizes = (65537, 262145, 300001) + ((1048577,) if tier == "thorough" else ())
+            n = sizes[ch.draw(len(sizes), "huge_n")]
+            idx = (a + np.arange(n)) % m
+            name = f"tau_exit_prob[{n}]"
+            ctx.probes["batch_gt_2^16"] += 1
         elif kind == 4:
             a = ch.draw(m, "big_a")
             n = 8193 + ch.draw(12000, "big_n")
